@@ -161,6 +161,36 @@ impl Driver {
                     let off = o["off"].as_u64().unwrap() as usize;
                     let len = o["len"].as_u64().unwrap() as usize;
                     b[off.min(b.len())..(off + len).min(b.len())].to_vec()
+                } else if let Some(of) = o.get("xor") {
+                    // XOR every byte of [off, off+len) with `byte`
+                    let mut b = self.bytes(of);
+                    let off = o["off"].as_u64().unwrap() as usize;
+                    let len = o["len"].as_u64().unwrap() as usize;
+                    let x = o["byte"].as_u64().unwrap() as u8;
+                    for i in off..(off + len).min(b.len()) {
+                        b[i] ^= x;
+                    }
+                    b
+                } else if let Some(of) = o.get("rotl") {
+                    // rotate the region [off, off+len) left by `by` bytes
+                    let mut b = self.bytes(of);
+                    let off = o["off"].as_u64().unwrap() as usize;
+                    let len = o["len"].as_u64().unwrap() as usize;
+                    let by = o["by"].as_u64().unwrap() as usize;
+                    if off + len <= b.len() && len > 0 {
+                        b[off..off + len].rotate_left(by % len);
+                    }
+                    b
+                } else if let Some(of) = o.get("addsub") {
+                    // byte `off` plus one, byte `off + dist` minus one (both wrapping)
+                    let mut b = self.bytes(of);
+                    let off = o["off"].as_u64().unwrap() as usize;
+                    let dist = o["dist"].as_u64().unwrap() as usize;
+                    if off + dist < b.len() {
+                        b[off] = b[off].wrapping_add(1);
+                        b[off + dist] = b[off + dist].wrapping_sub(1);
+                    }
+                    b
                 } else if let Some(of) = o.get("mut") {
                     let mut b = self.bytes(of);
                     let kind = o["kind"].as_str().unwrap();
@@ -700,11 +730,18 @@ fn op_lifetime<H: HashChain + 'static>(d: &mut Driver, cmd: &Value) {
     } else {
         (d.bytes(&cmd["key"]), "bytes")
     };
-    // from_bytes + get_lifetime, each observed
-    let r = guarded(|| {
-        let sk = SigningKey::<H>::from_bytes(&key).map_err(|_| "from_bytes".to_string())?;
-        sk.get_lifetime().map_err(|_| "err".to_string())
-    });
+    // bytes: from_bytes + get_lifetime, each observed.  mem: the query goes to the in-memory object ITSELF (whatever it
+    // remembers from earlier calls), not to a copy of its bytes
+    let r = if api == "mem" {
+        let name = cmd["mem"].as_str().unwrap();
+        let sk = d.mem.get(name).unwrap().downcast_ref::<SigningKey<H>>().expect("driver: mem key of another hash");
+        guarded(|| sk.get_lifetime().map_err(|_| "err".to_string()))
+    } else {
+        guarded(|| {
+            let sk = SigningKey::<H>::from_bytes(&key).map_err(|_| "from_bytes".to_string())?;
+            sk.get_lifetime().map_err(|_| "err".to_string())
+        })
+    };
     let mut ev = Map::new();
     ev.insert("ev".into(), json!("lifetime"));
     ev.insert("alg".into(), json!(alg));
